@@ -285,6 +285,13 @@ func (p *Parser) parseVP8XChunks(buf []byte) error {
 		buf = buf[chunkTotal:]
 	}
 
+	// A still image without its image chunk is incomplete (for example a file
+	// cut after the VP8X header or after the metadata that precedes the image):
+	// reporting success here would make a truncated file look like a valid
+	// picture with zero frames.
+	if !isAnim && len(p.frames) == 0 {
+		return ErrTruncated
+	}
 	return nil
 }
 
